@@ -77,12 +77,16 @@ PROPS["C05"] = {
             "restart buffer occur; user deliveries (incarnation, id) must equal the reference model's (no loss, duplication, reordering, "
             "no redelivery of the failing message, tail ahead of later sends), each failed incarnation ends with Stopped, a fresh receiver is "
             "Initialized+Started, ActorRestartedEvent.Restarts counts 1..n, a bystander actor still answers.  "
-            "Non-trivial = failing message neither first nor last of its window, or >=2 failures, or a failure during replay.",
+            "Non-trivial = failing message neither first nor last of its window, or >=2 failures, or a failure during replay.  "
+            "Delay leg: RestartDelay 0..20 ms, a batch of 1..12 messages of which 1..3 panic on their first delivery, and a second goroutine that - woken by the Stopped the failed incarnation is told - "
+            "sends 0..5 messages per crash while the actor sits out its delay (or replays), plus 0..4 after the last restart: the deliveries must be batch-up-to-failure per incarnation, the tail without "
+            "the failed message, then everything sent after the crash in its own order; non-trivial = sends during a non-zero delay.",
     "technique": "fault-position enumeration + model-based property testing (rapid) against a reference restart/replay model",
     "level_text": "Fault enumeration by generation: the crash point (position in batch, lifecycle handler, repetition, replay) is a generated input and the outcome is compared with an exact model.",
-    "level_note": "trusts internal/life/sim.go; restart delay 0 in the model-exact leg",
+    "level_note": "trusts internal/life/sim.go; restart delay 0 in the model-exact leg, real restart delays with a concurrent sender in the delay leg (order oracle only, no timing)",
     "assumptions": LIFE_ASSUME,
-    "legs": [rapid("life", "c05", "TestCrashReplay", 4000, 60000, shards=(2, 12))],
+    "legs": [rapid("life", "c05", "TestCrashReplay", 4000, 60000, shards=(2, 12)),
+             rapid("delay", "c05", "TestRestartDelay", 300, 6000, shards=(2, 12))],
 }
 
 PROPS["C06"] = {
